@@ -611,4 +611,169 @@ theorem pathsFile_lines (a : PathsArgs) (fi i : Nat) (ds : List Node) (st : Nat)
     rw [ih]
 end
 
+/-! ## yaml-merge -/
+
+open Ypv.MultiDoc in
+section
+variable {ε : Type} (m : Node → Node → Except ε Node) (cls : ε → Cls)
+
+theorem across_nonempty (l : Node) (ls rs : List Node) (o : Out) (h : across m cls (l :: ls) rs = .ok o) :
+    o.docs ≠ [] := by
+  cases rs with
+  | nil => simp [across] at h; subst h; simp
+  | cons r rs =>
+    simp only [across] at h
+    split at h
+    · split at h
+      · cases h; simp
+      · cases h
+    · split at h
+      · cases h; simp
+      · cases h
+
+theorem matrix_nonempty (rhs : List Node) (l : Node) (ls : List Node) (st : Nat) (o : Out)
+    (h : matrix m cls rhs (l :: ls) st = .ok o) : o.docs ≠ [] := by
+  simp only [matrix] at h
+  split at h
+  · cases h
+  · split at h
+    · cases h
+    · cases h; simp
+
+theorem mergeDocs_nonempty (mode : Mode) (lhs : List Node) (rhs : Option (List Node)) (o : Out)
+    (hl : lhs ≠ []) (h : mergeDocs m cls mode lhs rhs = some (.ok o)) : o.docs ≠ [] := by
+  cases lhs with
+  | nil => exact absurd rfl hl
+  | cons l ls =>
+    cases rhs with
+    | none => simp [mergeDocs] at h; subst h; simp
+    | some rs =>
+      cases mode with
+      | condenseAll =>
+        simp only [mergeDocs, condenseAll] at h
+        split at h
+        · cases h
+        · split at h
+          · cases h
+          · simp only [Option.some.injEq, Except.ok.injEq] at h; subst h; simp
+      | mergeAcross =>
+        simp only [mergeDocs, Option.some.injEq] at h
+        exact across_nonempty m cls l ls rs o h
+      | matrixMerge =>
+        simp only [mergeDocs, Option.some.injEq] at h
+        exact matrix_nonempty m cls rs l ls 0 o h
+
+theorem mergeFiles_fileLoop (mode : Mode) (files : List (List Node)) (docs : List Node) (n : Nat)
+    (hd : docs ≠ []) :
+    match fileLoop m cls mode files docs with
+    | none => mergeFiles m cls mode (files.map some) docs n = none
+    | some (.error e) => mergeFiles m cls mode (files.map some) docs n = some (.error e)
+    | some (.ok o) => ∃ k, mergeFiles m cls mode (files.map some) docs n = some (.ok (o, k))
+        ∧ (o.state = 0 → k = n + files.length ∧ o.docs ≠ []) := by
+  induction files generalizing docs n with
+  | nil => simp [fileLoop, mergeFiles, hd]
+  | cons f rest ih =>
+    have hne : docs.isEmpty = false := by cases docs with | nil => exact absurd rfl hd | cons _ _ => rfl
+    simp only [fileLoop, List.map_cons, mergeFiles, hne, Bool.false_eq_true, ↓reduceIte]
+    cases hmd : mergeDocs m cls mode docs (some f) with
+    | none => simp
+    | some r =>
+      cases r with
+      | error e => simp
+      | ok o =>
+        simp only
+        by_cases hs : o.state = 0
+        · simp only [hs, ↓reduceIte]
+          have := ih o.docs (n + 1) (mergeDocs_nonempty m cls mode docs (some f) o hd hmd)
+          cases hfl : fileLoop m cls mode rest o.docs with
+          | none => rw [hfl] at this; simpa using this
+          | some r' =>
+            cases r' with
+            | error e => rw [hfl] at this; simpa using this
+            | ok o' =>
+              rw [hfl] at this
+              obtain ⟨k, hk1, hk2⟩ := this
+              refine ⟨k, hk1, fun h0 => ?_⟩
+              obtain ⟨a1, a2⟩ := hk2 h0
+              exact ⟨by rw [a1, List.length_cons]; omega, a2⟩
+        · simp only [hs, ↓reduceIte]
+          exact ⟨n, rfl, fun h0 => h0.elim⟩
+
+theorem mergeFiles_first (mode : Mode) (f0 : List Node) (xs : List (Option (List Node))) :
+    mergeFiles m cls mode (some f0 :: xs) [] 0 = mergeFiles m cls mode xs f0 0 := by
+  simp [mergeFiles]
+
+/-- With every input loaded and a first input that holds at least one document, the tool's file loop
+is `MultiDoc.mainRun` (the model C18's theorems are about). -/
+theorem mergeStreams_eq_mainRun (mode : Mode) (f0 : List Node) (rest : List (List Node)) (h0 : f0 ≠ []) :
+    mergeStreams m cls mode ((f0 :: rest).map some) = mainRun m cls mode (f0 :: rest) := by
+  have hne : f0.isEmpty = false := by cases f0 with | nil => exact absurd rfl h0 | cons _ _ => rfl
+  unfold mergeStreams
+  rw [List.map_cons, mergeFiles_first]
+  cases rest with
+  | nil =>
+    simp only [List.map_nil, mergeFiles, mergeFinish, ne_eq, not_true_eq_false, ↓reduceIte,
+      decide_true, Bool.true_and, beq_iff_eq, hne, Bool.false_eq_true, mainRun]
+  | cons r rs =>
+    have hl := mergeFiles_fileLoop m cls mode (r :: rs) f0 0 h0
+    simp only [mainRun]
+    split at hl
+    · rename_i heq; rw [hl, heq]
+    · rename_i e heq; rw [hl, heq]
+    · rename_i o heq
+      obtain ⟨k, hk1, hk2⟩ := hl
+      rw [hk1, heq]
+      simp only [mergeFinish]
+      by_cases hs : o.state = 0
+      · obtain ⟨a1, a2⟩ := hk2 hs
+        have hk : k ≠ 0 := by rw [a1]; simp
+        have he : o.docs.isEmpty = false := by
+          cases hdd : o.docs with
+          | nil => exact absurd hdd a2
+          | cons _ _ => rfl
+        simp [hs, hk, he]
+      · simp [hs]
+
+theorem merge_of_streams (a : MergeArgs) (tty : Bool) (loads : List (Option (List Node)))
+    (stdin : Option (List Node)) (f0 : List Node) (rest : List (List Node))
+    (hv : mergeErrors a tty = []) (hin : mergeInputs a tty loads stdin = (f0 :: rest).map some) (h0 : f0 ≠ []) :
+    merge m cls a tty loads stdin =
+      match MultiDoc.mainRun m cls a.mode (f0 :: rest) with
+      | none => none
+      | some (.error e) => some (.error e)
+      | some (.ok o) =>
+        if o.state = 0 then some (.ok ⟨0, some o.docs, a.out != .stdout, a.backup⟩)
+        else some (.ok ⟨o.state, none, false, false⟩) := by
+  unfold merge
+  simp only [hv, ne_eq, not_true_eq_false, ↓reduceIte, hin]
+  rw [mergeStreams_eq_mainRun m cls a.mode f0 rest h0]
+  rcases mainRun m cls a.mode (f0 :: rest) with _ | (_ | _) <;> rfl
+
+theorem merge_delivery (a a' : MergeArgs) (tty tty' : Bool) (loads loads' : List (Option (List Node)))
+    (stdin stdin' : Option (List Node))
+    (hv : mergeErrors a tty = []) (hv' : mergeErrors a' tty' = [])
+    (hm : a.mode = a'.mode) (ho : a.out = a'.out) (hb : a.backup = a'.backup)
+    (hin : mergeInputs a tty loads stdin = mergeInputs a' tty' loads' stdin') :
+    merge m cls a tty loads stdin = merge m cls a' tty' loads' stdin' := by
+  unfold merge
+  simp only [hv, hv', ne_eq, not_true_eq_false, ↓reduceIte, hin, hm, ho, hb]
+
+theorem merge_args (a : MergeArgs) (tty : Bool) (loads : List (Option (List Node))) (stdin : Option (List Node)) :
+    (mergeErrors a tty ≠ [] ↔
+        (a.files = [] ∧ (tty = true ∨ a.nostdin = true)) ∨ manyDash a.files = true ∨ a.config = .bad
+          ∨ a.out = .output true ∨ (a.backup = true ∧ a.out.isOverwrite = false))
+    ∧ (mergeErrors a tty ≠ [] → merge m cls a tty loads stdin = some (.ok ⟨1, none, false, false⟩)) := by
+  constructor
+  · unfold mergeErrors
+    simp only [ne_eq, List.append_eq_nil_iff, when_eq_nil, Classical.not_and_iff_not_or_not, Bool.not_eq_false]
+    have e1 : (a.files.isEmpty && (tty || a.nostdin)) = true ↔ (a.files = [] ∧ (tty = true ∨ a.nostdin = true)) := by
+      simp
+    have e5 : (a.backup && !a.out.isOverwrite) = true ↔ (a.backup = true ∧ a.out.isOverwrite = false) := by
+      simp
+    rw [e1, e5]
+    simp [or_assoc]
+  · intro h
+    simp [merge, h]
+end
+
 end Ypv.Cli.Lemmas
